@@ -19,7 +19,7 @@ def kinds_for(w):
 
 def P(n):
     W = storage(n)
-    pts = {0, 1, 7, 8, 9, 15, 16, 17, 31, 32, 33, 63, 64, 65, W // 2 - 1, W // 2, n - 9, n - 8, n - 2, n - 1}
+    pts = {0, 1, 7, 8, 9, 15, 16, 17, 24, 31, 32, 33, 56, 63, 64, 65, W // 2 - 1, W // 2, n - 9, n - 8, n - 2, n - 1}
     return sorted(p for p in pts if 0 <= p < n)
 
 
@@ -105,7 +105,7 @@ def arrays_boundary(n, fam='ARRB'):
     out = []
     seen = set()
     for w in (1, 2, 3, 7, 8, 9, 16, 32, 64):
-        for lo in (0, 1, 5):
+        for lo in (0, 1, 5, 8, 16, 24):             # also byte-aligned starts other than 0
             for stride in (w, w + 1, w + 7, 2 * w):
                 if lo + w > n:
                     continue
